@@ -26,7 +26,9 @@ import (
 )
 
 var contentWords = []string{"foo", "Foo", "FOO", "bar", "Bar", "baz", "main", "Main", "test", "x_y", "a.b", "qux", "foobar", "FooBar", "say \"hi\"", "call(x)", "a+b", "end.",
-	"OR", "or", "and", "AND", "Not", "File:main", "bAr", "mAin"}
+	"OR", "or", "and", "AND", "Not", "File:main", "bAr", "mAin",
+	// for patterns whose only operator is a repetition, an anchor, …: both readings (operator / literal text) hit something
+	"baaad", "baad", "bad", "fooo", "fo", "ba{3}d", "fo{2}", "b.r", "fo*", "foo$", "ba?r", "foo  bar", "foo\tbar", "bar   baz"}
 var fileNames = []string{"main.go", "Main.java", "README.md", "src/bar_test.py", "lib/Baz.go", "foo.txt", "docs/Foo.md", "x_y.py", "cmd/qux/main.go"}
 var repoNames = []string{"github.com/org/alpha", "github.com/org/beta", "gitlab.com/foo/gamma", "example.com/bar/delta-go", "github.com/Foo/Upper"}
 var langOf = map[string]string{".go": "Go", ".java": "Java", ".md": "Markdown", ".py": "Python", ".txt": ""}
@@ -126,6 +128,20 @@ func casePatterns(r *gen.Rand, n int) []string {
 	return out
 }
 
+// singleOperatorPatterns: patterns over the corpus words in which exactly one kind of regexp operator occurs.
+func singleOperatorPatterns(r *gen.Rand, n int) []string {
+	pool := []string{
+		"ba{3}d", "ba{2,3}d", "ba{2,}d", "fo{2}", "fo{3,}", "o{2}b", "fo{1}", "ba{3}d", // counted repetition only
+		"b.r", "fo.", "fo*", "fo+bar", "ba?r", "fo?o", "foo|qux", "^foo", "foo$", "bar$", "[b]ar", "ba[a-z]",
+		"(ba)r", "fo(o)", "\\d", "a\\.b",
+	}
+	out := make([]string, n)
+	for i := range out {
+		out[i] = gen.Pick(r, pool)
+	}
+	return out
+}
+
 func vocabOf(r *gen.Rand, repos []q2lib.Repo) *q2lib.Vocab {
 	v := &q2lib.Vocab{
 		Words: []string{"foo", "Foo", "FOO", "bar", "Bar", "baz", "main", "Main", "test", "x_y", "a\\.b", "qux", "fo+", "[fF]oo", "foo|bar", "ba.", "\\w+_y", "Fo.*r",
@@ -142,7 +158,12 @@ func vocabOf(r *gen.Rand, repos []q2lib.Repo) *q2lib.Vocab {
 	// patterns whose capitals sit in classes / alternations, and bare words that look like keywords
 	v.Words = append(v.Words, casePatterns(r, 14)...)
 	v.Words = append(v.Words, "OR", "Or", "AND", "and", "not", "NOT", "or", "File:main", "CASE:yes", "Type:repo", "bAr", "mAin")
-	v.Files = append(v.Files, "[MX]ain", "(R|X)EADME", "[a-z]ain", "READ[A-Z]E")
+	v.Files = append(v.Files, "[MX]ain", "(R|X)EADME", "[a-z]ain", "READ[A-Z]E", "ma{1}in", "R{1,2}EADME", "fo{2}")
+	// every regexp operator ALONE in a pattern (no other metacharacter in the same atom): a literal test that forgets
+	// one operator class reads the atom as plain text
+	v.Words = append(v.Words, singleOperatorPatterns(r, 10)...)
+	v.Syms = append(v.Syms, "fo{2}", "ba{1,2}r", "fo+")
+	v.Spaced = append(v.Spaced, "foo  bar", "foo\tbar", "bar   baz", "fo{2} bar", "ba{3}d ba{3}d", "a{1}.b foo")
 	return v
 }
 
@@ -360,6 +381,17 @@ func main() {
 			w.Count("selected-some-not-all", b2i(c.Nontrivial))
 			if c.Impl == "err" {
 				w.Count("impl-parse-err", 1)
+			}
+			// history independence: the same tree with the run of blanks inside one quoted / escaped value changed
+			// (one blank ↔ two ↔ a tab), parsed in the same process right after the original. Each variant is judged
+			// on its own (its own model parse, its own documented meaning).
+			for _, gv := range q2lib.BlankVariants(r, g) {
+				cv := rn.runCase(gv)
+				if cv.Class == "plain" {
+					cv.Class = "blank-variant"
+				}
+				w.Emit(cv)
+				w.Count("blank-variant-pairs", 1)
 			}
 		}
 		rn.close()
